@@ -11,7 +11,7 @@ git -C /repo archive HEAD | tar -x -C "$S" || exit 2
 cd /verif
 VERIF_REPO="$S" VERIF_NO_EVIDENCE=1 timeout 3000 ./check "$C" --tier "$T" > /tmp/mut_$C.log 2>&1
 rc=$?
-rm -rf "$S"
+rm -rf "$S" /verif/.work/${C}_alt*
 n=$(grep -c "^VIOLATION" /tmp/mut_$C.log)
 echo "MUTANT $P $C rc=$rc violations=$n"
 grep "^VIOLATION" /tmp/mut_$C.log | head -3
